@@ -121,9 +121,9 @@ def run(ctx, rep):
                 s, idl, content = uses_self[0][2]
                 rd = calls[1]
                 ok = s == "self" and fmt_label(idl).startswith("<std::path::PathBuf as std::convert::From<&T>>::from(path)") and base_label(content) == base_label(rd[2][1]) \
-                    and fmt_label(rd[2][0]).endswith("Continue.0)") and "File::open(path)" in fmt_label(rd[2][0])
+                    and (fmt_label(rd[2][0]).endswith("Continue.0)") or fmt_label(rd[2][0]).endswith("Ok.0)")) and "File::open(path)" in fmt_label(rd[2][0])
                 conds = dict((fmt_label(l), v) for l, v in p.conds)
-                ok = ok and all(v == "Continue" for v in conds.values()) and len(conds) == 2
+                ok = ok and all(v in ("Continue", "Ok") for v in conds.values()) and len(conds) == 2
             exp = "open(path) ok, read_to_string(file, buffer) ok, then add_content(self, PathBuf::from(path), &buffer)"
         else:
             ok = False
